@@ -195,7 +195,22 @@ def run(ctx):
                     P = bytes((0, 1, 0, 0)) + body
                     yield ("c02", {"_k": "every:%d:%d:%d" % (l["m"], which, k), "prop": "C14", "lay": l, "P": P.hex()})
 
+    def gen_related():
+        """keys whose NAMES are related (one extends the other: X and X_HP, X and X_ENA ...) together in one message, in both orders,
+        with non-zero values: each key's attribute is its own value, whatever else the list holds"""
+        byname = {e["n"]: e for e in db}
+        pairs = [(a, b) for a in db for b in db if b["n"].startswith(a["n"] + "_") and tuple(a["key"]) != tuple(b["key"])]
+        ctx.extra["related_key_pairs"] = len(pairs)
+        for l in lays:
+            for k, (a, b) in enumerate(pairs):
+                for order in ((a, b), (b, a)):
+                    for which in (0, 1):
+                        body = b"".join(bytes(e["key"]) + extreme(e["t"], which) for e in order)
+                        yield ("c02", {"_k": "rel:%d:%d:%d:%s" % (l["m"], k, which, order[0]["n"]), "prop": "C14", "lay": l, "P": (bytes((0, 1, 0, 0)) + body).hex()})
+        del byname
+
     run_batch(ctx, "T_Walk", "T_Walk.cfg", gen_everykey(), walk.OBSERVERS, sig2, c02.negfn, chunk=4000)
+    run_batch(ctx, "T_Walk", "T_Walk.cfg", gen_related(), walk.OBSERVERS, sig2, c02.negfn, chunk=4000)
     pats = ("zero", "one", "ones", "rand", "rand", "rand", "rand", "count") * (2 if not ctx.thorough else 30)
     run_batch(ctx, "T_Walk", "T_Walk.cfg", c02.cases(ctx, lays, pats, prop="C14"), walk.OBSERVERS, sig2, c02.negfn, chunk=4000)
     ctx.exhaustive = False
